@@ -99,6 +99,13 @@ example :
     (∃ n, s.pc 0 = .holding n) ∧ (s.pc 1).label = "os.ReadFile" := by
   refine ⟨⟨1, by decide⟩, by decide⟩
 
+/-- Regression (`grog clean` before fix 5a4d0e7): process 0 holds the lock; the lock path is removed by a process
+    that does not hold it; process 1 then creates a fresh lock file and acquires as well. This is why the
+    invariant needs "only a holder removes the path", and why `clean` now takes the lock. -/
+theorem clean_without_lock_witness :
+    let s := solo 1 6 (wipe (solo 0 6 (init false)))
+    (s.pc 0).inCritical = true ∧ (s.pc 1).inCritical = true := by decide
+
 /-! ### Regression: the PID-file protocol of the tree before the fix violates mutual exclusion -/
 
 /-- A creates the lock file; before A writes its PID, B finds the file, reads it (empty), treats it
